@@ -35,4 +35,35 @@ CHECKS = {
   "text": "TLC enumerates sets of <=3 (quick) / <=4 rules from 16 csp rules/exceptions/blanket exceptions (domains, tags, duplicates, badfilter, third-party) x tag sets, and the expected directive set for 72 requests (9 types x 4 sources x {https,ftp}); compared as sets with the real engine's policy.",
   "note": TB + "Directives are opaque tokens without commas.",
  },
+
+ "C01": {
+  "level": "model_checking",
+  "technique": "TLA+ Ideal verdict (Net!IdealVerdicts: per-rule three-valued hits combined with the documented precedence) enumerated by TLC over all small rule lists x tag sets; replayed on real engines (index, buckets, optimiser in the loop)",
+  "text": "TLC enumerates every list of <=2 (quick) / <=3 (thorough) rules from a 37-rule pool built to stress token boundaries (patterns whose first/last token is only part of a URL token, hostname anchors, scheme-folded rules, domain-dispatched rules), precedence categories, tags and badfilter twins, x every enabled-tag subset, plus all lists of <=3 (quick) / <=4 from a 14-rule pool of tokenless multi-domain rules and near-twins; for every request of the universe it computes the set of verdicts the rule-by-rule meaning allows and each case is executed on real engines built with and without optimisation. TLC also checks that the code-shaped per-rule hit model refines the Ideal outside named deviations.",
+  "note": TB + "The index itself (token histogram, bucket choice) is exercised on the real code through M2 only; its TLA+ model (Tokens) is future work. Lists are small (<=4 rules); large-list effects of the histogram are not covered. Hash collisions assumed absent.",
+ },
+ "C04": {
+  "level": "model_checking",
+  "technique": "TLC checks precedence and monotonicity on the Ideal for every resolution of unspecified hits; real engines compared against the Ideal and, relationally, engine(L) vs engine(L+x) for every rule x of every exported list; badfilter twins/near-twins enumerated",
+  "text": "Precedence (blocked iff important hit, or blocking hit and no active exception) and badfilter cancellation are part of the Ideal verdict, enumerated by TLC over all lists of <=2/3 rules of the c01 pool and over all pairs (triples in thorough) of 13 base rules x 27 badfilter twins and near-twins that differ from a base rule in exactly one matching option or pattern character. Monotonicity is checked twice: by TLC on the Ideal (invariant MonotoneIdeal) and relationally on real engines for every (L, x) obtained by removing one eligible rule from an exported list.",
+  "note": TB + "Tag differences between a rule and its badfilter twin are outside the domain, as the property states.",
+ },
+ "C05": {
+  "level": "model_checking",
+  "technique": "every TLC-enumerated case runs on an optimised and an unoptimised engine against the same Ideal; TLC-generated histories include Blocker::optimize on a live engine",
+  "text": "All lists of <=3 (quick) / <=4 rules from 23 same-bucket near-twins that differ in exactly one attribute the optimiser must respect (exception, important, tag, regex-ness, anchors, type, party, domain, hostname anchor, redirect, removeparam), x tag sets; the domain-dispatch pool (rules shared between buckets); both engines must return an Ideal verdict for all requests. The explicit optimise operation is one of the actions of the MC_Engine state machine: every history of 4 (quick) / 5 operations is replayed on a live Blocker built with optimisation on and off.",
+  "note": TB + "Equivalence is established through the Ideal, which is stronger than engine-vs-engine comparison except where the Ideal allows several outcomes.",
+ },
+ "C06": {
+  "level": "model_checking",
+  "technique": "TLA+ state machine of the engine (rules, tags, saved image; Impl: address-keyed regex cache + nondeterministic allocator); TLC checks history independence over all histories and exports each for replay on one long-lived Blocker/Engine",
+  "text": "MC_Engine models every public mutator as an action (use/enable/disable tags, add_filter, optimize, discard all regexes, serialize, deserialize, query battery). TLC explores every history of 4 (quick) / 5 (thorough) operations, checks that the Impl layer (regex cache keyed by rule address, rules re-allocated at any free address on every tag change) answers every query with the Ideal answer for the current (rules, tags), under every allocator choice, and exports each history; each is replayed on one long-lived real object in three configurations (optimise off/on, aggressive discard policy) and every query step is compared with the Ideal of a freshly built engine. With the pre-fix deviation switched on, TLC reproduces the stale-regex counterexample (thorough self-test).",
+  "note": TB + "Real time is replaced by explicit discards and an aggressive discard policy; the real allocator cannot be forced, so an address-reuse defect is found on the real code only when reuse happens (it did on the pre-fix tree). Cosmetic queries are not part of these histories (covered by C16/C08).",
+ },
+ "C07": {
+  "level": "model_checking",
+  "technique": "TLA+ tag algebra as an action property of the engine state machine + Active(rule) == tag in set in the Ideal; TLC-enumerated lists x tag subsets and TLC-generated histories replayed on real engines",
+  "text": "Static: all lists of <=2 (quick) / <=3 rules from {block, exception, important, csp, csp-exception} x {untagged, t1, t2} plus fusable near-twins, under every enabled-tag subset, on optimised and unoptimised engines. Dynamic: every history of 4 (quick) / 5 operations over use/enable/disable/serialize/deserialize/discard/query (Engine; two initial lists, one without any tagged blocking rule) and add_filter/optimize (Blocker); the enabled set (tag_exists / tags_enabled) is compared after every operation and the battery at every query. TLC checks the action property TagAlgebra (use = assignment, enable = union, disable = difference, everything else leaves the set unchanged).",
+  "note": TB + "tag+redirect and tag+removeparam are documented as unsupported and excluded.",
+ },
 }
